@@ -380,3 +380,57 @@ _add(Cond('frame_equals_kinds_all_layouts', [('ka', 'int'), ('kbsel', 'int'), ('
         functions=['Frame.equals', 'TypeBlocks.equals'],
         bounds='two 2x3 frames; the kind (int64 / float64) of each column of the first symbolic, the second with the same kinds or the first / last column of the other kind, an optional differing cell, NaN on no / the left / both sides, compare_dtype and skipna symbolic; the first frame in EVERY block layout that can hold its kinds',
         route='Frame.equals(compare_dtype, skipna) in both directions == (cells equal, NaN pairs per skipna) and (dtypes equal unless compare_dtype is off), whatever the block layout', timeout=600))
+
+
+# ------------------------------------------------------------------------------------------------
+# 8. equals of INDEX containers (flat, grow-only, hierarchical) and of Series over them: every flag, both directions
+
+IX_POOL = (1, 2, 3, 'a')
+
+
+def body_index_equals(env, kind_a, kind_b, la, lb, na, nb, compare_name, compare_class, compare_dtype, target):
+    from vf import rt
+    kind_a, kind_b = concretize(kind_a, 0, 3), concretize(kind_b, 0, 3)
+    la, lb, na, nb, target = concretize(la, 0, 3), concretize(lb, 0, 3), concretize(na, 0, 1), concretize(nb, 0, 1), concretize(target, 0, 1)
+    compare_name, compare_class, compare_dtype = bool(compare_name), bool(compare_class), bool(compare_dtype)
+
+    def run():
+        sf = env.sf
+        # label sets: 0 = [1, 2], 1 = [2, 1], 2 = [1, 2, 3], 3 = [1, 'a'] (object labels)
+        sets = ([1, 2], [2, 1], [1, 2, 3], [1, 'a'])
+        hsets = ([(0, 1), (0, 2)], [(0, 2), (0, 1)], [(0, 1), (0, 2), (1, 3)], [(0, 1), (0, 'a')])
+
+        def mk(kind, which, name):
+            if kind == 0:
+                return sf.Index(sets[which], name=name), 'Index', sets[which], ('i' if which != 3 else 'O')
+            if kind == 1:
+                return sf.IndexGO(sets[which], name=name), 'IndexGO', sets[which], ('i' if which != 3 else 'O')
+            if kind == 2:
+                return sf.Index(env.array([float(x) if not isinstance(x, str) else x for x in sets[which]], 'float64' if which != 3 else 'object'), name=name), 'Index', sets[which], ('f' if which != 3 else 'O')
+            return sf.IndexHierarchy.from_labels(hsets[which], name=name), 'IndexHierarchy', hsets[which], 'H'
+        a, cls_a, labs_a, dt_a = mk(kind_a, la, ('n', 'm')[na])
+        b, cls_b, labs_b, dt_b = mk(kind_b, lb, ('n', 'm')[nb])
+        comparable = (cls_a == 'IndexHierarchy') == (cls_b == 'IndexHierarchy')
+        e = (comparable and labs_a == labs_b and (not compare_name or na == nb) and (not compare_class or cls_a == cls_b)
+             and (not compare_dtype or dt_a == dt_b))
+        if target == 0:
+            got = [env.obs(a.equals(b, compare_name=compare_name, compare_class=compare_class, compare_dtype=compare_dtype)),
+                   env.obs(b.equals(a, compare_name=compare_name, compare_class=compare_class, compare_dtype=compare_dtype)),
+                   env.obs(a.equals(a.copy() if hasattr(a, 'copy') else a, compare_name=True, compare_class=True, compare_dtype=True))]
+            return got, [e, e, True]
+        # the same indices carrying equal Series values: Series.equals adds nothing but the index comparison
+        sa = sf.Series(env.array(list(range(len(labs_a))), 'int64'), index=a)
+        sb = sf.Series(env.array(list(range(len(labs_b))), 'int64'), index=b)
+        es = comparable and labs_a == labs_b and (not compare_dtype or dt_a == dt_b) and (not compare_class or cls_a == cls_b or True)
+        got = [env.obs(sa.equals(sb, compare_dtype=compare_dtype)), env.obs(sb.equals(sa, compare_dtype=compare_dtype))]
+        return got, [es, es]
+    return rt.untraced(run)
+
+
+_add(Cond('index_equals_kinds_and_flags', [('kind_a', 'int'), ('kind_b', 'int'), ('la', 'int'), ('lb', 'int'), ('na', 'int'), ('nb', 'int'),
+                                         ('compare_name', 'bool'), ('compare_class', 'bool'), ('compare_dtype', 'bool'), ('target', 'int')], body_index_equals,
+        ranges={'kind_a': (0, 3), 'kind_b': (0, 3), 'la': (0, 3), 'lb': (0, 3), 'na': (0, 1), 'nb': (0, 1), 'target': (0, 1)},
+        pre=['kind_a <= kind_b', 'target == 0 or (not compare_name and not compare_class and na == 0 and nb == 0)', 'la <= 1 or lb <= 1 or la == lb'],
+        functions=['Index.equals', 'IndexHierarchy.equals'],
+        bounds='two indices, each Index / IndexGO / float-typed Index / IndexHierarchy (symbolic) over one of four label sets (same, permuted, longer, object labels), names symbolic; compare_name / compare_class / compare_dtype symbolic; Index.equals in both directions, or Series.equals over them',
+        route='Index / IndexHierarchy.equals: true iff same labels in the same order and every requested conjunct (name, class, dtype) holds; symmetric; Series.equals follows its index', timeout=600))
